@@ -2,6 +2,7 @@ import PpciVerif.Proofs.RelaxObj
 import PpciVerif.Proofs.RelaxInsn
 import PpciVerif.Proofs.RelaxScan
 import PpciVerif.Proofs.RelaxRange
+import PpciVerif.Proofs.RelaxLink
 import PpciVerif.Model.RelaxLink
 import PpciVerif.Gen.RelaxTab
 /-!
@@ -175,6 +176,19 @@ theorem shrunk_instruction_same_target (k : Shrink) (data outU outR : List Nat) 
   obtain ⟨offU, d1, t1⟩ := unrelaxed_decodes hlen hb hop hU hfitU
   obtain ⟨l2, offR, d2, t2⟩ := shrunk_decodes k hlen hb hR hfitR
   exact ⟨offU, offR, d1, t1, l2, d2, t2, cinstr_expand k offR⟩
+
+/-- the same inside the linker: one step of `do_relocations` (`_do_relocation`) for a `bc_imm11` entry whose
+    site holds the two bytes `do_shrink` kept of a `jal` leaves, at that site of the section, `c.j` / `c.jal`
+    to the address `get_symbol_id_value` reports for the entry's symbol (reference in reach of C.J) -/
+theorem relocated_shrunk_site (o o2 : Obj) (r : Reloc) (sec : Section) (k : Shrink) (data : List Nat) (S : Nat)
+    (h : doRelocation o r = .ok o2) (hty : r.typ = "bc_imm11")
+    (hsec : getSec o.sections r.sect = some sec) (hS : getSymbolIdValue o r.symbolId = .ok S)
+    (hlen : data.length = 4) (hb : Bytes data) (hsite : (sec.data.drop r.offset).take 2 = patch k data)
+    (hfit : Spec.Bits.fitsS 12 ((S : Int) - ((sec.address + r.offset : Nat) : Int))) :
+    ∃ sec2 off, getSec o2.sections r.sect = some sec2 ∧ sec2.address = sec.address ∧
+      Spec.RV32.decodeC (Spec.RelocSem.wordLE ((sec2.data.drop r.offset).take 2)) = some (cinstr k off) ∧
+      ((sec.address + r.offset : Nat) : Int) + off = S :=
+  doRelocation_shrunk_site h hty hsec hS hlen hb hsite hfit
 
 /-- non-vacuity: `jal ra` (ef 00 00 00) at 0x1004 to 0x100c, relaxed at 0x1002 to 0x1008 -/
 example : Model.Reloc.Rvc.cbImm11 0x100c [0xef, 0, 0, 0] 0x1004 = .ok [0xef, 0, 0x80, 0] ∧
